@@ -149,7 +149,7 @@ def main():
         ],
         "checks": checks,
         "not_applicable": na,
-        "notes": "Exit codes of every check: 0 held, 1 violation (VIOLATION line), 2 undecided (never reported as violation), 3 checker crash. On the unchanged tree every check is a proof (evidence level 'proof', obligations == discharged; tools/run_all.sh asserts it). On a CHANGED tree whose shape a contract no longer fits (construct outside the VC generator, loop contract that cannot be attached, obligations whose counter-models were replayed on the real code and do not reproduce) the property's bounded native oracle (oracles/<ID>.py, oracles/c_<ID>.py: statement-level test of the real code, bound stated in its BOUND text) stands in for that run: a concrete failing input is a VIOLATION with a replay file; otherwise exit 0 with a 'BOUNDED ...' line and evidence level 'exploration' (never counted as proved). Failed obligations that cannot be replayed stay 'VIOLATION ... no-failing-input-found'. See DESIGN.md section 18. Known findings: known_findings.jsonl (only 'fixed:' lines at present).",
+        "notes": "Exit codes of every check: 0 held, 1 violation (VIOLATION line), 2 undecided (never reported as violation), 3 checker crash. On the unchanged tree every check is a proof (evidence level 'proof', obligations == discharged; tools/run_all.sh asserts it). On a CHANGED tree whose shape a contract no longer fits (construct outside the VC generator, loop contract that cannot be attached, obligations whose counter-models were replayed on the real code and do not reproduce) the property's bounded native oracle (oracles/<ID>.py, oracles/c_<ID>.py: statement-level test of the real code, bound stated in its BOUND text) stands in for that run: a concrete failing input is a VIOLATION with a replay file; otherwise exit 0 with a 'BOUNDED ...' line and evidence level 'exploration' (never counted as proved). A failed obligation becomes a VIOLATION when a failing input is reproduced on the real code (the verifier's counter-model replayed at an entry point, or an input found by the oracle); without any reproducible input and with a clean oracle it is listed as an unestablished proof step and the stand-in decides; 'VIOLATION ... no-failing-input-found' is emitted when no oracle can run for the changed code. See DESIGN.md section 18. Known findings: known_findings.jsonl (only 'fixed:' lines at present).",
     }
     json.dump(man, open(os.path.join(HERE, "MANIFEST.json"), "w"), indent=1)
 
